@@ -251,7 +251,9 @@ def dof_transformation_dump(space):
 
 
 def make_space(api, grid, spec):
-    """spec = (kind, degree, kwargs)"""
+    """spec = (kind, degree, kwargs); kind 'X-bary' = barycentric representation of the space of kind X"""
+    if spec[0].endswith("-bary"):
+        return api.function_space(grid, spec[0][:-5], spec[1], **spec[2]).barycentric_representation()
     return api.function_space(grid, spec[0], spec[1], **spec[2])
 
 
@@ -300,3 +302,90 @@ def potential_case(api, rng, mname, spec, family, k, points, ncoef=2, name=None)
             # impl values in the order: coefficient vector, point, component
             "impl": [frc(v[d, p]) for v in vals for p in range(len(points)) for d in range(v.shape[0])],
             "scale": fr(float(np.max(np.abs(allv)))), "nonzero": int(np.count_nonzero(allv))}
+
+
+# ---------------------------------------------------------------------------------------------------------
+# FMM glue with the exafmm stand-in and a surrogate 4-component point kernel
+# ---------------------------------------------------------------------------------------------------------
+def enable_fmm_stub():
+    stubs = os.path.join(os.path.dirname(os.path.abspath(__file__)), "stubs")
+    if stubs not in sys.path:
+        sys.path.insert(0, stubs)
+    import bempp_cl.api as api
+    api.GLOBAL_PARAMETERS.fmm.dense_evaluation = True
+    return api
+
+
+def random_g4(rng, is_complex):
+    """four independent polynomial components (value, three 'gradient' components)"""
+    comps = []
+    for _ in range(4):
+        s = random_surr(rng, is_complex, use_normals=False)
+        s["d"] = [0.0, 0.0, 0.0]
+        comps.append(s)
+    return comps
+
+
+def g4_function(comps, dtype):
+    fns = [surr_functions(s, dtype)[1] for s in comps]      # "singular" convention: (3,n),(3,n) -> n
+
+    def k4(target_points, source_points, kernel_parameters, dt, result_type):
+        nt, ns = target_points.shape[1], source_points.shape[1]
+        out = np.empty(4 * nt * ns, dtype=result_type)
+        for t in range(nt):
+            x = np.repeat(np.asarray(target_points[:, t], dtype=np.float64).reshape(3, 1), ns, axis=1)
+            for i in range(4):
+                out[t * 4 * ns + 4 * np.arange(ns) + i] = fns[i](x, np.asarray(source_points), None, None, None)
+        return out
+    return k4
+
+
+class FmmPython:
+    """Run the FMM glue with (a) the library's exact evaluator and near-field correction executing as Python bodies
+    on a surrogate 4-component kernel (comps given) or (b) unchanged real kernels (comps None)."""
+    PYF = [("bempp_cl.api.fmm.helpers", ["dense_interaction_evaluator_impl", "get_local_interaction_matrix_impl",
+                                         "numba_evaluate_local_interactions"]),
+           ("bempp_cl.api.space.space", ["map_space_to_points_impl"]),
+           ("bempp_cl.api.fmm.fmm_assembler", ["compute_p1_curl_transformation_impl",
+                                               "compute_rwg_basis_transform_impl", "compute_rwg_div_transform_impl"])]
+
+    def __init__(self, comps=None, is_complex=False, python_bodies=False):
+        self.comps, self.is_complex = comps, is_complex
+        self.python_bodies = python_bodies or comps is not None
+
+    def __enter__(self):
+        import importlib
+        self.saved = []
+        if self.python_bodies:
+            for modname, names in self.PYF:
+                mod = importlib.import_module(modname)
+                for n in names:
+                    f = getattr(mod, n)
+                    self.saved.append((mod, n, f))
+                    setattr(mod, n, getattr(f, "py_func", f))
+        if self.comps is not None:
+            helpers = importlib.import_module("bempp_cl.api.fmm.helpers")
+            k4 = g4_function(self.comps, np.complex128 if self.is_complex else np.float64)
+            for n in ("laplace_kernel", "helmholtz_kernel", "modified_helmholtz_kernel"):
+                self.saved.append((helpers, n, getattr(helpers, n)))
+                setattr(helpers, n, k4)
+        fa = importlib.import_module("bempp_cl.api.fmm.fmm_assembler")
+        fa.clear_fmm_cache()
+        return self
+
+    def __exit__(self, *a):
+        for mod, n, f in self.saved:
+            setattr(mod, n, f)
+        import importlib
+        importlib.import_module("bempp_cl.api.fmm.fmm_assembler").clear_fmm_cache()
+        return False
+
+
+def neighbors_dump(grid):
+    il = grid.element_neighbors
+    return [[int(x) for x in il.indices[il.indexptr[e]:il.indexptr[e + 1]]] for e in range(grid.number_of_elements)]
+
+
+def sparse_dump(mat):
+    m = mat.tocoo()
+    return [[int(r), int(c), frc(v)] for r, c, v in zip(m.row, m.col, m.data)]
